@@ -89,6 +89,19 @@ fn math_workloads<B: Fld, E: FieldElement<BaseField = B> + winter_math::Extensio
         fft::interpolate_poly_with_offset(&mut c, &itw, B::GENERATOR);
         d.put(format!("{t}.interpolate_poly_with_offset n={n}"), h(&c));
     }
+    // short polynomials extended by large blowups (the shape of the DEEP composition of a short trace): fewer
+    // coefficients than worker threads, results on both sides of the 1024-element thresholds
+    if !d.small {
+        for &n in &[2usize, 4, 8, 16, 32, 64, 128, 256] {
+            let mut rng = d.rng(&format!("{t}short{n}"));
+            let p = rand_vec::<B, E>(&mut rng, n);
+            let tw = fft::get_twiddles::<B>(n);
+            for blowup in [8usize, 32, 64, 128] {
+                let ev = fft::evaluate_poly_with_offset(&p, &tw, B::GENERATOR, blowup);
+                d.put(format!("{t}.evaluate_poly_with_offset n={n} blowup={blowup} (short polynomial)"), h(&ev));
+            }
+        }
+    }
     let lens: &[usize] = if d.small { &[100, 1025] } else { &[1000, 1023, 1024, 1025, 1027, 2047, 3001, 5000, 8191, 10007, 16384, 65537] };
     for &n in lens {
         let mut rng = d.rng(&format!("{t}util{n}"));
